@@ -317,7 +317,7 @@ class Origins:
                     po = Origins(pf, self.facts, depth=8).of_local(0, 8)
                     if po and all(x.root[0] in ('const', 'agg', 'fn') for x in po):
                         return po
-            return [Origin(('const', None, k.get('uneval') or k.get('s')))]
+            return [Origin(('const', None, k.get('static') or k.get('uneval') or k.get('s')))]
         if op.place is None:
             return [Origin(('unknown',))]
         return self.of_place(op.place, depth)
